@@ -1889,8 +1889,13 @@ def list_fn(ctx: "Wtp", token: str) -> None:
         _parser_pop(ctx, True)
 
     pop_until_nth_list(ctx, token)
-    # If not already in a list, create a new list.
     node = ctx.parser_stack[-1]
+    if node.kind == NodeKind.LIST and node.sarg != token:
+        # Counting list depth (through an element left open in the previous
+        # item) has led to a list of another type: that list ends here.
+        _parser_pop(ctx, True)
+        node = ctx.parser_stack[-1]
+    # If not already in a list, create a new list.
     if node.kind != NodeKind.LIST:
         node = _parser_push(ctx, NodeKind.LIST)
         node.sarg = token
